@@ -30,32 +30,38 @@ def check(ctx: Ctx) -> None:
     fi = repo.func("gateway_base.WorkerGateway.executetask")
     cfg = build_cfg(repo, fi, Oracle(repo, fi))
     with ctx.obligation("C14.a", "complete-on-all-exits") as ob:
-        setters = cfg_nodes_with_call(cfg, lambda c: _is_evt_call(c, "set"))
-        ob.require(bool(setters), f"no {EVT}.set() in executetask")
-        through = {n.id for n in setters}
-        # `if X is not None: X.set()` -- the test is vacuous on its false edge
-        for t in cfg.nodes:
-            if t.kind == "test" and EVT in unparse(t.ast) and "None" in unparse(t.ast):
-                # vacuous only if the *whole* condition is "the event exists"
-                f = Facts(repo, fi, {})
-                f.assume(t.ast, True)
-                if set(f.env.items()) != {(f"self.{EVT} is None", False)}:
-                    continue
-                tru = [m for (m, lab) in cfg.succ[t.id] if lab == "true"]
-                if tru and all(m in through for m in tru):
-                    through.add(t.id)
-        exits = [cfg.exit.id, cfg.raise_exit.id]
-        for ex, kind in ((cfg.exit.id, "return"), (cfg.raise_exit.id, "raise")):
-            p = cfg.must_pass([cfg.entry.id], [ex], through)
-            ob.site(fi, fi.node, f"every path ENTRY->{kind.upper()} passes {EVT}.set()", exit=kind,
-                    set_sites=[n.line for n in setters])
-            if p is not None:
-                last = cfg.nodes[p[-2][0]] if len(p) >= 2 else None
-                ob.violation(fi, last.ast if last is not None else fi.node,
-                             f"an exit of executetask ({kind}) skips {EVT}.set(): a failing or interrupted body "
-                             "leaves the event clear and every later remote_exec is answered with the deadlock error",
-                             construct=f"exit:{kind} via {norm(last.ast)[:80] if last is not None and last.ast is not None else '?'}",
-                             path=cfg.describe_path(p))
+        # on value terms along every path (exceptional ones included): the event -- through whatever local it is
+        # reached -- is set before the function is left, unless the path has established that there is no event
+        from ..terms import NONE as _N0, evaluator as _ev0, tv as _tv0
+        ev0 = _ev0(repo, fi, Oracle(repo, fi))
+        EVS = ("sym", f"self.{EVT}")
+        n_set = 0
+        counts = {"return": 0, "raise": 0}
+        reported = set()
+        for (pth, st) in ev0.run(limit=200000):
+            end = pth[-1][0]
+            if end not in (cfg.exit.id, cfg.raise_exit.id) and end not in (ev0.cfg.exit.id, ev0.cfg.raise_exit.id):
+                continue
+            kind = "return" if end == ev0.cfg.exit.id else "raise"
+            counts[kind] += 1
+            sets = [e for e in st.events if e.kind == "call" and e.attr == "set" and e.recv == EVS]
+            n_set += bool(sets)
+            if sets or _tv0(("cmp", "is", EVS, _N0), dict(st.cond)) is True:
+                continue
+            last = ev0.cfg.nodes[pth[-2][0]] if len(pth) >= 2 else None
+            key = (kind, id(last.ast) if last is not None else 0)
+            if key in reported:
+                continue
+            reported.add(key)
+            ob.violation(fi, last.ast if last is not None and last.ast is not None else fi.node,
+                         f"an exit of executetask ({kind}) skips {EVT}.set(): a failing or interrupted body "
+                         "leaves the event clear and every later remote_exec is answered with the deadlock error",
+                         construct=f"exit:{kind} via {norm(last.ast)[:80] if last is not None and last.ast is not None else '?'}",
+                         path=ev0.cfg.describe_path(pth))
+        ob.require(n_set >= 1, f"no {EVT}.set() in executetask")
+        for kind in ("return", "raise"):
+            ob.site(fi, fi.node, f"every path ENTRY->{kind.upper()} passes {EVT}.set()", exit=kind, paths=counts[kind])
+        ob.require(counts["return"] >= 1, "executetask: no returning path")
 
     # ---- C14.b clear-after-wait
     fs = repo.func("gateway_base.WorkerGateway._local_schedulexec")
